@@ -254,3 +254,28 @@ CHECKS["C15"] = {
     ],
     "fuzz": [{"name": "FuzzTableReader", "seconds": 120}],
 }
+
+CHECKS["C19"] = {
+    "pkg": "./c19/",
+    "level": "exploration",
+    "technique": ("property-based testing (rapid) of the production pipeline + baseStage on a real concurrent.Pool with harness-owned completion order "
+                  "(gated plan-node operators), reference model for the started set; wave/stress variants with real concurrent completions (-race in the thorough tier)"),
+    "rule": ("rapid-generated stage trees (depth 1-4, fan-out 0-4, <= 40 stages; shapes: free sync/async mix, production leaf shape (sync root, async below), all sync, all async, burst), "
+             "outcome per stage ok / ErrNotFound ignored by the plan node / error / ErrNotFound not ignored / panic (string, error, runtime error, other value), plan node single | composite | nil; "
+             "async stages park on a gate inside their operator, gates are released in a generated permutation, the next only after the released stage's Complete() was observed and every newly "
+             "submitted stage reached its gate; after the last release the pool is stopped (joins all workers) and the callback counter is final. Oracle: callback exactly once; err != nil iff an executed "
+             "stage failed or panicked; no stage twice, none below a failed stage; without panics started set == model and callback only after every started stage finished. "
+             "non-trivial = an executed failing/panicking stage that is not the last to finish, or >= 2 async siblings that both ran; distinct = hash of (tree, modes, outcomes, plan shapes, release order)"),
+    "level_text": ("Exploration of generated (tree, outcome, completion-order) cases on the production pipeline/state machine/baseStage/pool code; completion order is owned by the harness in TestPipelineCompletion "
+                   "(deterministic, shrinkable); TestPipelineConcurrentWaves and TestConcurrentCompletionStress add real simultaneous completions (unsystematic; oracle holds for every interleaving)."),
+    "level_note": ("Trusted: pool.Stop() joins all workers. Not covered: real leaf/root task processors (LeafExecuteContext.SendResponse), context cancellation / stopped pool (Submit drops the task silently), "
+                   "saturated pools, panics inside Stage.Complete()/NextStages()/Plan(). Simultaneous-completion races are only sampled."),
+    "assumptions": ["one pool worker per async stage (a parked stage never blocks another one from starting)", "context never cancelled, pool never stopped during a case",
+                    "sync stages below async stages are generated although today's production trees do not contain them (the property quantifies over every sync/async mix)"],
+    "tests": [
+        {"name": "TestPipelineCompletion", "quick": 20000, "thorough": {"checks": 200000, "shards": 8}},
+        {"name": "TestPipelineConcurrentWaves", "quick": 10000, "thorough": {"checks": 40000, "shards": 4, "race": True}},
+        {"name": "TestConcurrentCompletionStress", "quick": 300, "thorough": {"checks": 2000, "shards": 4, "race": True, "timeout": 3000}},
+        {"name": "TestRegression.*", "quick": {}, "thorough": {}},
+    ],
+}
